@@ -26,12 +26,12 @@ def search(ctx, N):
     from numdifftools.fornberg import fd_derivative
     rng = ctx.rng(4)
     for t in range(N):
-        n = int(rng.integers(1, 4))
-        m = int(rng.integers(1, 3))
+        n = int(rng.integers(1, 4)) if t % 3 else int(rng.integers(1, 6))
+        m = int(rng.integers(1, 3)) if t % 3 else int(rng.integers(1, 5))
         mm = n // 2 + m
         length = int(rng.integers(2 * mm + 2, 2 * mm + 12))
         x = gen_grid(rng, length, int(rng.integers(0, 4)))
-        deg = int(rng.integers(0, 2 * mm + 1))
+        deg = int(rng.integers(0, 2 * mm + 1)) if t % 2 else 2 * mm - int(rng.integers(0, 2))      # every second case at (or just below) the top degree 2 (n//2 + m)
         coef = [Fraction(int(c)) for c in rng.integers(-5, 6, size=deg + 1)]
         X = [Fraction(float(v)) for v in x]
         fx = np.array([float(sum(c * xv ** i for i, c in enumerate(coef))) for xv in X])
@@ -54,6 +54,7 @@ def search(ctx, N):
         h = float(np.min(np.abs(np.diff(x))))
         scale = max(max(abs(e) for e in exact), Fraction(max(abs(fx)))) or Fraction(1)
         tol = Fraction(1e-10) * scale / Fraction(h) ** n * 100
+        ctx.cov['search_worst_ratio_to_tolerance'] = max(ctx.cov.get('search_worst_ratio_to_tolerance', 0.0), max(float(abs(Fraction(float(got[i])) - exact[i]) / tol) for i in range(length)))
         for i in range(length):
             if abs(Fraction(float(got[i])) - exact[i]) > tol:
                 where = 'left boundary' if i < mm else ('right boundary' if i >= length - mm else 'interior')
